@@ -293,3 +293,79 @@ Proof.
   intros Hr Hne Hc. cbn [mime_loop]. rewrite Hr. destruct line; [contradiction|]. cbn [is_nil].
   now rewrite Hc.
 Qed.
+
+(* the first header line must not start with a blank: never accepted *)
+Theorem leading_blank_rejected bs x s :
+  is_sp_tab x = true ->
+  read_mime_header bs (x :: s) = inl HMalformedHeader \/ read_mime_header bs (x :: s) = inl HUnexpectedEOF.
+Proof.
+  intros Hx. unfold read_mime_header. rewrite Hx.
+  destruct (read_line bs (x :: s)); [now left|]. destruct (_ <=? 80); [now right|now left].
+Qed.
+
+(* ====================================================================== *)
+(* trailers                                                               *)
+(* ====================================================================== *)
+
+Lemma index_sub_from_prefix n p s : has_prefix p s = true -> index_sub_from n p s = Some n.
+Proof. intros H. destruct s; cbn [index_sub_from]; now rewrite H. Qed.
+
+Lemma contains_sub_mid p a b : contains_sub p (a ++ p ++ b) = true.
+Proof.
+  unfold contains_sub, index_sub. generalize 0 as n.
+  induction a as [|x a IH]; intros n.
+  - cbn [app]. now rewrite index_sub_from_prefix by apply has_prefix_refl_app.
+  - change ((x :: a) ++ p ++ b) with (x :: (a ++ p ++ b)). cbn [index_sub_from].
+    destruct (has_prefix p (x :: a ++ p ++ b)); [reflexivity|]. apply IH.
+Qed.
+
+Lemma render_field_ends_crlf f : exists pre, render_field f = pre ++ CRLF.
+Proof.
+  unfold render_field. destruct (hf_conts f) as [|c cs] eqn:E.
+  - cbn [flat_map]. rewrite app_nil_r. exists (hf_name f ++ COLON :: SP :: hf_first f).
+    rewrite <- app_assoc. reflexivity.
+  - assert (Hne : c :: cs <> []) by discriminate.
+    destruct (exists_last Hne) as (l & x & ->).
+    rewrite flat_map_app. cbn [flat_map]. rewrite app_nil_r. unfold render_cont at 2.
+    exists (hf_name f ++ COLON :: SP :: hf_first f ++ CRLF ++ flat_map render_cont l ++ fst x ++ snd x).
+    rewrite <- !app_assoc. cbn [app]. rewrite <- !app_assoc. reflexivity.
+Qed.
+
+(* body.readTrailer: a non-empty well-formed trailer block (foldable fields, any case) whose
+   terminating blank line lies within the read buffer is read back as sent and the message ends
+   right after the blank line; with declared trailers it is merged key by key *)
+Theorem trailer_round_trip bufsize ts rest :
+  ts <> [] -> Forall field_ok ts ->
+  length (render_fields ts ++ CRLF) <= bufsize ->
+  read_trailer bufsize (render_fields ts ++ CRLF ++ rest) = inr (header_of_fields ts, rest).
+Proof.
+  intros Hne Hok Hlen.
+  destruct (exists_last Hne) as (init & f & ->).
+  assert (Hf : field_ok f) by (apply Forall_app in Hok as [_ Hl]; now inversion Hl).
+  destruct (render_field_ends_crlf f) as (pre & Hpre).
+  assert (Hdc : see_upcoming_double_crlf bufsize (render_fields (init ++ [f]) ++ CRLF ++ rest) = true).
+  { unfold see_upcoming_double_crlf.
+    replace (render_fields (init ++ [f]) ++ CRLF ++ rest) with ((render_fields (init ++ [f]) ++ CRLF) ++ rest)
+      by now rewrite <- app_assoc.
+    rewrite firstn_app. rewrite firstn_all2 by assumption.
+    apply contains_sub_app.
+    unfold render_fields. rewrite flat_map_app. cbn [flat_map]. rewrite app_nil_r, Hpre.
+    rewrite <- !app_assoc. change (CRLF ++ CRLF) with (double_crlf ++ []).
+    rewrite (app_assoc (flat_map render_field init) pre). apply contains_sub_mid. }
+  assert (Hfirst : exists x y r, render_fields (init ++ [f]) ++ CRLF ++ rest = x :: y :: r /\ is_sp_tab x = false /\ beqb x CR = false).
+  { assert (Hg : exists g gs, init ++ [f] = g :: gs /\ field_ok g).
+    { destruct init as [|g gs].
+      - exists f, []. auto.
+      - exists g, (gs ++ [f]). split; [reflexivity|]. now inversion Hok. }
+    destruct Hg as (g & gs & Eg & (Hgn & Hgt & _)). rewrite Eg.
+    cbn [render_fields flat_map]. unfold render_field at 1.
+    destruct (hf_name g) as [|x nm]; [contradiction|]. cbn [forallb] in Hgt. apply andb_true_iff in Hgt as [Hx _].
+    rewrite <- !app_assoc. cbn [app].
+    match goal with |- exists _ _ _, x :: ?t = _ /\ _ => remember t as tl eqn:Et end.
+    destruct tl as [|y r]; [destruct nm; discriminate|].
+    exists x, y, r. split; [reflexivity|]. split; [now apply tchar_not_sp_tab|].
+    revert Hx. clear. destruct x; vm_compute; intros H; try discriminate; reflexivity. }
+  destruct Hfirst as (x & y & r & E & _ & Hx).
+  unfold read_trailer. rewrite E. rewrite Hx. cbn [andb]. rewrite <- E, Hdc. cbn [negb].
+  now rewrite mime_header_round_trip.
+Qed.
